@@ -835,3 +835,165 @@ Proof.
   - repeat constructor; cbn; unfold int64, minInt64, maxInt64, is_u64; lia.
   - split; [cbn; lia|]. vm_compute. repeat split.
 Qed.
+
+(* ---- Next / Seek scripts against the cursor specification (XOR2) --------------------------------- *)
+
+Lemma x2_next_num it bs it' bs' : x2_next it bs = Some (it', bs') -> j_num it' = j_num it + 1.
+Proof.
+  unfold x2_next. intros H.
+  destruct (Z.eqb_spec (j_num it) 0) as [E0|N0].
+  { destruct (get_varint false bs) as [[t r]|]; [|discriminate]. destruct (get_bits 64 r) as [[v r2]|]; [|discriminate].
+    destruct (j_fsk it).
+    - destruct (get_varint false r2) as [[sd r3]|]; [|discriminate]. injection H as H1 H2. subst it'. cbn. lia.
+    - injection H as H1 H2. subst it'. cbn. lia. }
+  destruct (Z.eqb_spec (j_num it) 1) as [E1|N1].
+  { destruct (get_uvarint false bs) as [[tD r]|]; [|discriminate].
+    destruct (x2_decode_value it r) as [[[[[v base] l] tr] r2]|]; [|discriminate].
+    destruct (j_fsco it =? 1).
+    - destruct (get_varbit r2) as [[sdod r3]|]; [|discriminate]. injection H as H1 H2. subst it'. cbn. lia.
+    - injection H as H1 H2. subst it'. cbn. lia. }
+  destruct (x2_read_joint it bs) as [[[[[[[tD t] v] base] l] tr] r2]|]; [|discriminate].
+  destruct (x2_read_st it (j_t it) r2) as [[[st sd] r3]|]; [|discriminate].
+  injection H as H1 H2. subst it'. cbn. lia.
+Qed.
+
+Definition cur_of2 (it : x2it) : option sample :=
+  if j_num it =? 0 then None else Some (mkS (j_st it) (j_t it) (j_v it)).
+
+(* the cursor stands where the abstract cursor (cur, rest) stands: [rest] is what the remaining
+   bits decode to *)
+Definition CurInv2 (total : Z) (c : x2cur) (rest : list sample) : Prop :=
+  cv_err c = false /\ 0 <= j_num (cv_it c) /\ j_num (cv_it c) + Z.of_nat (length rest) = total /\
+  exists fin, x2_iter (length rest) (cv_it c) (cv_bits c) = (rest, Some fin).
+
+Lemma CurInv22_next total c x rest : CurInv2 total c (x :: rest) ->
+  exists c', x2cur_next total c = (c', true) /\ CurInv2 total c' rest /\ cur_of2 (cv_it c') = Some x.
+Proof.
+  intros [He [H0 [Hn [fin Hit]]]]. cbn [length x2_iter] in Hit.
+  destruct (x2_next (cv_it c) (cv_bits c)) as [[it' bs']|] eqn:Hnx; [|discriminate].
+  destruct (x2_iter (length rest) it' bs') as [l r] eqn:Hrest. injection Hit as E1 E2 E3. subst l r x.
+  pose proof (x2_next_num _ _ _ _ Hnx) as Hnum.
+  exists (mkC2 it' bs' false). unfold x2cur_next. rewrite He. cbn [orb].
+  replace (j_num (cv_it c) =? total) with false
+    by (symmetry; apply Z.eqb_neq; cbn [length] in Hn; rewrite Nat2Z.inj_succ in Hn; lia).
+  rewrite Hnx. split; [reflexivity|]. split.
+  - unfold CurInv2. cbn. split; [reflexivity|]. split; [lia|]. split.
+    + cbn [length] in Hn. rewrite Nat2Z.inj_succ in Hn. lia.
+    + exists fin. exact Hrest.
+  - unfold cur_of2. cbn. replace (j_num it' =? 0) with false by (symmetry; apply Z.eqb_neq; lia). reflexivity.
+Qed.
+
+Lemma CurInv22_end total c : CurInv2 total c [] -> x2cur_next total c = (c, false).
+Proof.
+  intros [He [H0 [Hn _]]]. unfold x2cur_next. rewrite He. cbn [orb length] in *.
+  replace (j_num (cv_it c) =? total) with true by (symmetry; apply Z.eqb_eq; lia). reflexivity.
+Qed.
+
+Lemma seek_loop_spec2 total t : forall rest fuel c,
+  CurInv2 total c rest -> (length rest < fuel)%nat ->
+  cur_of2 (cv_it c) = None \/ (exists s, cur_of2 (cv_it c) = Some s /\ s_t s < t) ->
+  exists c' rest',
+    x2cur_seek_loop fuel total t c = Some (c', snd (seek_rest t (cur_of2 (cv_it c)) rest)) /\
+    seek_rest t (cur_of2 (cv_it c)) rest = (cur_of2 (cv_it c'), rest', snd (seek_rest t (cur_of2 (cv_it c)) rest)) /\
+    CurInv2 total c' rest'.
+Proof.
+  induction rest as [|x rest IH]; intros fuel c HI Hf Hcond.
+  - destruct fuel as [|fuel]; [cbn in Hf; lia|]. cbn [x2cur_seek_loop seek_rest snd].
+    assert (Hc : (j_t (cv_it c) <? t) || (j_num (cv_it c) =? 0) = true).
+    { unfold cur_of2 in Hcond. destruct (Z.eqb_spec (j_num (cv_it c)) 0); [apply orb_true_r|].
+      destruct Hcond as [Hc|[s [Hc Hlt]]]; [discriminate|]. injection Hc as Hc. subst s. cbn in Hlt.
+      apply orb_true_iff. left. apply Z.ltb_lt. exact Hlt. }
+    rewrite Hc, (CurInv22_end _ _ HI). exists c, []. split; [reflexivity|]. split; [reflexivity|exact HI].
+  - destruct fuel as [|fuel]; [cbn in Hf; lia|]. cbn [x2cur_seek_loop].
+    assert (Hc : (j_t (cv_it c) <? t) || (j_num (cv_it c) =? 0) = true).
+    { unfold cur_of2 in Hcond. destruct (Z.eqb_spec (j_num (cv_it c)) 0); [apply orb_true_r|].
+      destruct Hcond as [Hc|[s [Hc Hlt]]]; [discriminate|]. injection Hc as Hc. subst s. cbn in Hlt.
+      apply orb_true_iff. left. apply Z.ltb_lt. exact Hlt. }
+    rewrite Hc. destruct (CurInv22_next _ _ _ _ HI) as [c1 [Hnx [HI1 Hcur1]]]. rewrite Hnx.
+    cbn [seek_rest]. destruct (Z.leb_spec t (s_t x)) as [Hle|Hgt].
+    + (* the loop stops at x *)
+      cbn [snd]. exists c1, rest. split.
+      * destruct fuel as [|fuel']; cbn [x2cur_seek_loop].
+        -- assert (Hstop : (j_t (cv_it c1) <? t) || (j_num (cv_it c1) =? 0) = false).
+           { unfold cur_of2 in Hcur1. destruct (Z.eqb_spec (j_num (cv_it c1)) 0); [discriminate|].
+             injection Hcur1 as Hx. subst x. cbn in Hle. rewrite orb_false_r. apply Z.ltb_ge. exact Hle. }
+           rewrite Hstop. reflexivity.
+        -- assert (Hstop : (j_t (cv_it c1) <? t) || (j_num (cv_it c1) =? 0) = false).
+           { unfold cur_of2 in Hcur1. destruct (Z.eqb_spec (j_num (cv_it c1)) 0); [discriminate|].
+             injection Hcur1 as Hx. subst x. cbn in Hle. rewrite orb_false_r. apply Z.ltb_ge. exact Hle. }
+           rewrite Hstop. reflexivity.
+      * rewrite Hcur1. split; [reflexivity|exact HI1].
+    + destruct (IH fuel c1 HI1 ltac:(cbn [length] in Hf; lia)) as [c' [rest' [Hl [Hs HI']]]].
+      { right. exists x. split; [exact Hcur1|exact Hgt]. }
+      rewrite Hcur1 in Hl, Hs. exists c', rest'. split; [exact Hl|]. split; [exact Hs|exact HI'].
+Qed.
+
+Lemma x2_script_spec total : forall acts c rest,
+  CurInv2 total c rest -> (Z.of_nat (length rest) <= total) ->
+  x2_script total c acts = Some (spec_script (cur_of2 (cv_it c)) rest acts).
+Proof.
+  induction acts as [|a acts IH]; intros c rest HI Hlen; [reflexivity|].
+  assert (Hfuel : (length rest < S (Z.to_nat total))%nat) by lia.
+  destruct a as [|t].
+  - (* Next *)
+    cbn [x2_script spec_script]. destruct rest as [|x rest].
+    + rewrite (CurInv22_end _ _ HI). rewrite (IH c [] HI Hlen). reflexivity.
+    + destruct (CurInv22_next _ _ _ _ HI) as [c1 [Hnx [HI1 Hcur1]]]. rewrite Hnx.
+      rewrite (IH c1 rest HI1 ltac:(cbn [length] in Hlen; lia)). rewrite Hcur1.
+      unfold cur_of2 in Hcur1. destruct (j_num (cv_it c1) =? 0); [discriminate|]. injection Hcur1 as Hx. rewrite Hx. reflexivity.
+  - (* Seek t *)
+    cbn [x2_script spec_script]. unfold x2cur_seek.
+    assert (He : cv_err c = false) by (destruct HI as [He _]; exact He). rewrite He.
+    destruct (cur_of2 (cv_it c)) as [c0|] eqn:Hcur.
+    + destruct (Z.leb_spec t (s_t c0)) as [Hle|Hgt].
+      * (* already there *)
+        cbn [x2cur_seek_loop].
+        assert (Hstop : (j_t (cv_it c) <? t) || (j_num (cv_it c) =? 0) = false).
+        { unfold cur_of2 in Hcur. destruct (Z.eqb_spec (j_num (cv_it c)) 0); [discriminate|].
+          injection Hcur as Hx. subst c0. cbn in Hle. rewrite orb_false_r. apply Z.ltb_ge. exact Hle. }
+        rewrite Hstop. rewrite (IH c rest HI Hlen), Hcur.
+        unfold cur_of2 in Hcur. destruct (j_num (cv_it c) =? 0); [discriminate|]. injection Hcur as Hx. rewrite Hx. reflexivity.
+      * destruct (seek_loop_spec2 total t rest (S (Z.to_nat total)) c HI Hfuel) as [c' [rest' [Hl [Hs HI']]]].
+        { right. exists c0. split; [exact Hcur|exact Hgt]. }
+        rewrite Hcur in Hl, Hs. rewrite Hl.
+        assert (Hlen' : Z.of_nat (length rest') <= total) by (destruct HI' as [_ [G0 [Gn _]]]; lia).
+        rewrite (IH c' rest' HI' Hlen'). rewrite Hs.
+        destruct (snd (seek_rest t (Some c0) rest)) eqn:Hok; [|reflexivity].
+        unfold cur_of2. destruct (j_num (cv_it c') =? 0) eqn:Hz; [|reflexivity].
+        (* ok = true means the cursor stands on a sample *)
+        exfalso. apply (seek_rest_ok_some _ _ _ _ _ Hs). unfold cur_of2. rewrite Hz. reflexivity.
+    + destruct (seek_loop_spec2 total t rest (S (Z.to_nat total)) c HI Hfuel) as [c' [rest' [Hl [Hs HI']]]].
+      { left. exact Hcur. }
+      rewrite Hcur in Hl, Hs. rewrite Hl.
+      assert (Hlen' : Z.of_nat (length rest') <= total) by (destruct HI' as [_ [G0 [Gn _]]]; lia).
+      rewrite (IH c' rest' HI' Hlen'). rewrite Hs.
+      destruct (snd (seek_rest t None rest)) eqn:Hok; [|reflexivity].
+      unfold cur_of2. destruct (j_num (cv_it c') =? 0) eqn:Hz; [|reflexivity].
+      exfalso. apply (seek_rest_ok_some _ _ _ _ _ Hs). unfold cur_of2. rewrite Hz. reflexivity.
+Qed.
+
+
+Lemma xor2_seek_script segs acts :
+  Forall wf_sample2 (flat_map snd segs) -> Z.of_nat (length (flat_map snd segs)) <= 65535 ->
+  exists num hdr bs, xor2_encode segs = EOk num [hdr] bs /\
+    xor2_run_script (chunk_bytes num [hdr] bs) acts = Some (spec_script None (flat_map snd segs) acts).
+Proof.
+  intros Hwf Hcap. unfold xor2_encode.
+  destruct (x2_run_ok segs x2app_init 0 [] [] chunk_ok2_empty Hwf ltac:(cbn; lia)) as [a' [hdr' [bs' [Hrun Hok]]]].
+  cbn [app length Z.of_nat] in Hrun, Hok.
+  eexists. exists hdr', bs'. split; [exact Hrun|].
+  destruct Hok as [HH [Hn [_ Hall]]].
+  assert (Hf : 0 <= b_fsco a' <= 127) by (destruct HH as [_ [Hf _]]; exact Hf).
+  assert (Hh : hdr' = hdr_of a') by (destruct HH as [Hh _]; exact Hh).
+  destruct (Hall a' (Fut_refl a') Hf) as [it [_ Hit]].
+  unfold chunk_bytes, xor2_run_script. cbn [app].
+  set (n := Z.of_nat (length (flat_map snd segs))) in *.
+  assert (H0 : 0 <= n <= 65535) by lia.
+  replace (n / 256 * 256 + n mod 256) with n by (Z.div_mod_to_equations; lia).
+  destruct (unpack_pack bs') as [pad [Hp _]]. rewrite Hp.
+  change None with (cur_of2 (cv_it (mkC2 (x2it_init hdr') (bs' ++ pad) false))).
+  apply x2_script_spec.
+  - unfold CurInv2. cbn [cv_err cv_it cv_bits]. split; [reflexivity|]. split; [cbn; lia|].
+    split; [cbn; lia|]. exists (it, pad). rewrite Hh. apply Hit.
+  - lia.
+Qed.
